@@ -41,6 +41,84 @@ class Violation(BaseException):
 
 _EX = None  # the active Explorer (one per process at a time)
 
+# ---- fast term constructors (z3py's operators spend most of their time in
+# sort coercion; the proxies track int/real themselves)
+from z3 import z3core as _core  # pylint: disable=g-import-not-at-top
+
+_CTX = z3.main_ctx()
+_C = _CTX.ref()
+_Ast2 = _core.Ast * 2
+
+
+def _arr(asts):
+  n = len(asts)
+  return n, (_core.Ast * n)(*asts)
+
+
+def f_and(ts):
+  if len(ts) == 1:
+    return ts[0]
+  n, a = _arr([t.ast for t in ts])
+  return z3.BoolRef(_core.Z3_mk_and(_C, n, a), _CTX)
+
+
+def f_or(ts):
+  if len(ts) == 1:
+    return ts[0]
+  n, a = _arr([t.ast for t in ts])
+  return z3.BoolRef(_core.Z3_mk_or(_C, n, a), _CTX)
+
+
+def f_not(t):
+  return z3.BoolRef(_core.Z3_mk_not(_C, t.ast), _CTX)
+
+
+def f_ite(c, a, b):
+  r = _core.Z3_mk_ite(_C, c.ast, a.ast, b.ast)
+  if isinstance(a, z3.BoolRef):
+    return z3.BoolRef(r, _CTX)
+  return z3.ArithRef(r, _CTX)
+
+
+def f_add(a, b):
+  return z3.ArithRef(_core.Z3_mk_add(_C, 2, _Ast2(a.ast, b.ast)), _CTX)
+
+
+def f_sub(a, b):
+  return z3.ArithRef(_core.Z3_mk_sub(_C, 2, _Ast2(a.ast, b.ast)), _CTX)
+
+
+def f_mul(a, b):
+  return z3.ArithRef(_core.Z3_mk_mul(_C, 2, _Ast2(a.ast, b.ast)), _CTX)
+
+
+def f_lt(a, b):
+  return z3.BoolRef(_core.Z3_mk_lt(_C, a.ast, b.ast), _CTX)
+
+
+def f_le(a, b):
+  return z3.BoolRef(_core.Z3_mk_le(_C, a.ast, b.ast), _CTX)
+
+
+def f_gt(a, b):
+  return z3.BoolRef(_core.Z3_mk_gt(_C, a.ast, b.ast), _CTX)
+
+
+def f_ge(a, b):
+  return z3.BoolRef(_core.Z3_mk_ge(_C, a.ast, b.ast), _CTX)
+
+
+def f_eq(a, b):
+  return z3.BoolRef(_core.Z3_mk_eq(_C, a.ast, b.ast), _CTX)
+
+
+def f_ne(a, b):
+  return f_not(f_eq(a, b))
+
+
+def same_term(a, b):
+  return _core.Z3_is_eq_ast(_C, a.ast, b.ast)
+
 
 def explorer():
   if _EX is None:
@@ -56,7 +134,30 @@ def is_sym(x):
   return isinstance(x, (SymInt, SymReal, SymBool))
 
 
+_RV_CACHE = {}
+_IV_CACHE = {}
+
+
+def _int_val(n):
+  t = _IV_CACHE.get(n)
+  if t is None:
+    t = z3.IntVal(n)
+    if len(_IV_CACHE) < 100000:
+      _IV_CACHE[n] = t
+  return t
+
+
 def _real_val(x):
+  key = (type(x), x)
+  t = _RV_CACHE.get(key)
+  if t is None:
+    t = _real_val_uncached(x)
+    if len(_RV_CACHE) < 100000:
+      _RV_CACHE[key] = t
+  return t
+
+
+def _real_val_uncached(x):
   if isinstance(x, bool):
     return z3.RealVal(int(x))
   if isinstance(x, int):
@@ -90,9 +191,9 @@ def num_term(x):
     return z3.If(x.t, z3.IntVal(1), z3.IntVal(0)), False
   x = _np_unwrap(x)
   if isinstance(x, bool):
-    return z3.IntVal(int(x)), False
+    return _int_val(int(x)), False
   if isinstance(x, int):
-    return z3.IntVal(x), False
+    return _int_val(x), False
   if isinstance(x, (float, Fraction)):
     return _real_val(x), True
   raise Unsupported('not a number: %r' % (type(x),))
@@ -195,25 +296,25 @@ class _SymBase(object):
     if not _numlike(o):
       return NotImplemented
     a, b, r = _binop_terms(self, o)
-    return _wrap(a + b, r)
+    return _wrap(f_add(a, b), r)
 
   def __radd__(self, o):
     if not _numlike(o):
       return NotImplemented
     a, b, r = _binop_terms(o, self)
-    return _wrap(a + b, r)
+    return _wrap(f_add(a, b), r)
 
   def __sub__(self, o):
     if not _numlike(o):
       return NotImplemented
     a, b, r = _binop_terms(self, o)
-    return _wrap(a - b, r)
+    return _wrap(f_sub(a, b), r)
 
   def __rsub__(self, o):
     if not _numlike(o):
       return NotImplemented
     a, b, r = _binop_terms(o, self)
-    return _wrap(a - b, r)
+    return _wrap(f_sub(a, b), r)
 
   def __mul__(self, o):
     if not _numlike(o):
@@ -221,7 +322,7 @@ class _SymBase(object):
         return o * self.__index__()
       return NotImplemented
     a, b, r = _binop_terms(self, o)
-    return _wrap(a * b, r)
+    return _wrap(f_mul(a, b), r)
 
   def __rmul__(self, o):
     if not _numlike(o):
@@ -229,7 +330,7 @@ class _SymBase(object):
         return o * self.__index__()
       return NotImplemented
     a, b, r = _binop_terms(o, self)
-    return _wrap(a * b, r)
+    return _wrap(f_mul(a, b), r)
 
   def __truediv__(self, o):
     if not _numlike(o):
@@ -320,28 +421,28 @@ class _SymBase(object):
     return SymBool(op(a, b))
 
   def __lt__(self, o):
-    return self._cmp(o, lambda a, b: a < b)
+    return self._cmp(o, f_lt)
 
   def __le__(self, o):
-    return self._cmp(o, lambda a, b: a <= b)
+    return self._cmp(o, f_le)
 
   def __gt__(self, o):
-    return self._cmp(o, lambda a, b: a > b)
+    return self._cmp(o, f_gt)
 
   def __ge__(self, o):
-    return self._cmp(o, lambda a, b: a >= b)
+    return self._cmp(o, f_ge)
 
   def __eq__(self, o):
     if o is None or isinstance(o, (str, bytes, tuple, list, dict, set,
                                    frozenset)):
       return False
-    return self._cmp(o, lambda a, b: a == b)
+    return self._cmp(o, f_eq)
 
   def __ne__(self, o):
     if o is None or isinstance(o, (str, bytes, tuple, list, dict, set,
                                    frozenset)):
       return True
-    return self._cmp(o, lambda a, b: a != b)
+    return self._cmp(o, f_ne)
 
   def __bool__(self):
     return explorer().branch(self.t != 0)
@@ -605,7 +706,13 @@ def And(*xs):
     xs = tuple(xs[0])
   if not any(isinstance(x, (SymBool, z3.BoolRef)) for x in xs):
     return all(bool(x) for x in xs)
-  return SymBool(z3.And(*[bool_term(x) for x in xs])) if xs else True
+  ts = []
+  for x in xs:
+    if isinstance(x, (SymBool, z3.BoolRef)):
+      ts.append(bool_term(x))
+    elif not x:
+      return False
+  return SymBool(f_and(ts)) if ts else True
 
 
 def Or(*xs):
@@ -613,12 +720,18 @@ def Or(*xs):
     xs = tuple(xs[0])
   if not any(isinstance(x, (SymBool, z3.BoolRef)) for x in xs):
     return any(bool(x) for x in xs)
-  return SymBool(z3.Or(*[bool_term(x) for x in xs])) if xs else False
+  ts = []
+  for x in xs:
+    if isinstance(x, (SymBool, z3.BoolRef)):
+      ts.append(bool_term(x))
+    elif x:
+      return True
+  return SymBool(f_or(ts)) if ts else False
 
 
 def Not(x):
   if isinstance(x, SymBool):
-    return SymBool(z3.Not(x.t))
+    return SymBool(f_not(x.t))
   return not x
 
 
@@ -630,10 +743,12 @@ def If(c, a, b):
   """Non-forking if-then-else on numbers/bools."""
   if not isinstance(c, SymBool):
     return a if c else b
+  if a is b:
+    return a
   if isinstance(a, (SymBool, bool)) and isinstance(b, (SymBool, bool)):
-    return SymBool(z3.If(c.t, bool_term(a), bool_term(b)))
+    return SymBool(f_ite(c.t, bool_term(a), bool_term(b)))
   ta, tb, r = _binop_terms(a, b)
-  return _wrap(z3.If(c.t, ta, tb), r)
+  return _wrap(f_ite(c.t, ta, tb), r)
 
 
 def Min(*xs):
@@ -670,13 +785,20 @@ def Ceil(x):
 
 def Eq(a, b):
   """Non-forking equality usable on numbers, bools, strings, None."""
+  if a is b:
+    return True
   if is_sym(a) or is_sym(b):
     if isinstance(a, (SymBool, bool)) and isinstance(b, (SymBool, bool)):
-      return SymBool(bool_term(a) == bool_term(b))
+      ta, tb = bool_term(a), bool_term(b)
+      if same_term(ta, tb):
+        return True
+      return SymBool(f_eq(ta, tb))
     if a is None or b is None or isinstance(a, str) or isinstance(b, str):
       return False
     ta, tb, _ = _binop_terms(a, b)
-    return SymBool(ta == tb)
+    if same_term(ta, tb):
+      return True
+    return SymBool(f_eq(ta, tb))
   return a == b
 
 
@@ -700,13 +822,14 @@ def Count(conds):
 
 
 class _Entry(object):
-  __slots__ = ('val', 'forced', 'payload', 'flipped')
+  __slots__ = ('val', 'forced', 'payload', 'flipped', 'trivial')
 
   def __init__(self, val, forced, payload=None):
     self.val = val
     self.forced = forced
     self.payload = payload
     self.flipped = False
+    self.trivial = False
 
 
 class Stats(object):
@@ -784,35 +907,39 @@ class Explorer(object):
 
   # -- decisions
   def branch(self, cond, payload=None):
-    c = z3.simplify(cond)
-    if z3.is_true(c):
-      return True
-    if z3.is_false(c):
-      return False
+    # Every symbolic condition gets a log entry (also trivially decided ones),
+    # so replays need neither simplification nor solver calls.
     i = self.pos
     if i < len(self.log):
       e = self.log[i]
       self.pos += 1
       if i >= self.frames:
         self.solver.push()
-        self.solver.add(c if e.val else z3.Not(c))
+        if not e.trivial:
+          self.solver.add(cond if e.val else f_not(cond))
         self.frames += 1
       return e.val
     # fresh decision
-    can_true = self._check(c)
-    if not can_true:
-      e = _Entry(False, True, payload)
+    c = z3.simplify(cond)
+    if z3.is_true(c) or z3.is_false(c):
+      e = _Entry(z3.is_true(c), True, payload)
+      e.trivial = True
     else:
-      can_false = self._check(z3.Not(c))
-      if not can_false:
-        e = _Entry(True, True, payload)
+      can_true = self._check(c)
+      if not can_true:
+        e = _Entry(False, True, payload)
       else:
-        e = _Entry(True, False, payload)
-        self.stats.decisions += 1
+        can_false = self._check(f_not(c))
+        if not can_false:
+          e = _Entry(True, True, payload)
+        else:
+          e = _Entry(True, False, payload)
+          self.stats.decisions += 1
     self.log.append(e)
     self.pos += 1
     self.solver.push()
-    self.solver.add(c if e.val else z3.Not(c))
+    if not e.trivial:
+      self.solver.add(c if e.val else f_not(c))
     self.frames += 1
     if len(self.log) > self.stats.max_depth:
       self.stats.max_depth = len(self.log)
@@ -837,6 +964,11 @@ class Explorer(object):
                       'values)' % MAX_CONCRETIZE)
 
   # -- harness-facing API
+  def retained(self):
+    """True while replaying a part of the path whose constraints are still in
+    the solver (nothing needs to be re-added or re-checked)."""
+    return self.pos <= self.keep
+
   def assume(self, cond):
     if not isinstance(cond, (SymBool, z3.BoolRef)):
       if not cond:
